@@ -237,7 +237,7 @@ func (wd *c20world) apply(op string) error {
 		wd.ctl.arm()
 		_, err := w.Status()
 		return err
-	case "ExtSize", "ExtMtime", "ExtBoth":
+	case "ExtSize", "ExtMtime", "ExtSubsec", "ExtBoth":
 		return wd.external(op)
 	case "ExtRemove": // another process deletes the index file (git rm --cached -r . && rm .git/index, a fresh checkout tool ...)
 		return wd.clk.Remove(".git/index")
@@ -250,7 +250,8 @@ func (c *faultCtl) disarm() { c.mu.Lock(); c.armed = false; c.mu.Unlock() }
 
 // external rewrites the index the way another process would: a second Storage with its own (empty) cache.
 // ExtSize: one more entry, modification time forced back to the previous one (only the size changes).
-// ExtMtime: the object id of the first entry is changed (same size), later modification time.
+// ExtMtime: the object id of the first entry is changed (same size), later modification time (whole seconds).
+// ExtSubsec: the same rewrite, but the modification time moves by one nanosecond only (same second).
 func (wd *c20world) external(kind string) error {
 	fi, err := wd.dotClk.Stat("index")
 	if err != nil {
@@ -270,7 +271,7 @@ func (wd *c20world) external(kind string) error {
 			h = idx.Entries[0].Hash
 		}
 		idx.Entries = append(idx.Entries, &index.Entry{Name: fmt.Sprintf("zz%d", wd.ver), Hash: h, Mode: filemode.Regular})
-	case "ExtMtime":
+	case "ExtMtime", "ExtSubsec":
 		if len(idx.Entries) == 0 {
 			return nil
 		}
@@ -281,8 +282,11 @@ func (wd *c20world) external(kind string) error {
 	if err := ext.SetIndex(idx); err != nil {
 		return err
 	}
-	if kind == "ExtSize" {
+	switch kind {
+	case "ExtSize":
 		wd.clk.SetMtime(".git/index", fi.ModTime())
+	case "ExtSubsec": // same size, same second, other nanoseconds (the smallest change a timestamp can show)
+		wd.clk.SetMtime(".git/index", fi.ModTime().Add(time.Nanosecond))
 	}
 	return nil
 }
